@@ -53,6 +53,8 @@ class FixEmptySequenceComparison(
                                     else cst.UnaryOperation(
                                         operator=cst.Not(),
                                         expression=comp_var,
+                                        lpar=original_node.lpar,
+                                        rpar=original_node.rpar,
                                     )
                                 )
                             case _:
@@ -62,6 +64,8 @@ class FixEmptySequenceComparison(
                                     else cst.UnaryOperation(
                                         operator=cst.Not(),
                                         expression=comp_var,
+                                        lpar=original_node.lpar,
+                                        rpar=original_node.rpar,
                                     )
                                 )
 
